@@ -20,6 +20,7 @@ func init() {
 		Explain: "Decides the replace-by-rename discipline of the snapshot file for every crash point (process-crash semantics): the live path is never removed, never opened with O_TRUNC and always opened with O_APPEND; the only replacement of the live file is os.Rename(temp, live), reached only after the temp's buffered writer was flushed without error and the temp file synced without error (in that order, all writes before the flush), the temp being opened with O_TRUNC|O_CREATE; replay ignores a torn last line; the leave and shutdown paths flush then sync. File-system semantics of rename/fsync are the trusted base.",
 		Run: runC11,
 		Mutants: []Mutant{
+			{Name: "clock-field-after-append", File: "serf/snapshot.go", Func: "func (s *Snapshotter) processUserEvent(", Old: "\ts.lastEventClock = e.LTime\n", New: "", Old2: "\ts.tryAppend(fmt.Sprintf(\"event-clock: %d\\n\", e.LTime))\n", New2: "\ts.tryAppend(fmt.Sprintf(\"event-clock: %d\\n\", e.LTime))\n\ts.lastEventClock = e.LTime\n", Expect: "R5"},
 			{Name: "remove-before-rename", File: "serf/snapshot.go", Func: "func (s *Snapshotter) compact(", Old: "\t// Move the new file into place", New: "\t_ = os.Remove(s.path)\n\n\t// Move the new file into place", Expect: "R1"},
 			{Name: "rename-without-sync", File: "serf/snapshot.go", Func: "func (s *Snapshotter) compact(", Old: "\terr = fh.Sync()\n", New: "\terr = nil\n", Expect: "R2"},
 			{Name: "rename-ignores-flush-error", File: "serf/snapshot.go", Func: "func (s *Snapshotter) compact(", Old: "\terr = buf.Flush()\n", New: "\t_ = buf.Flush()\n\terr = nil\n", Expect: "R2"},
@@ -71,6 +72,22 @@ func runC11(c *an.Ctx) {
 	c.Rule("R2 os.Rename(temp, live) is the only replacement; it is edge-dominated by temp Flush()==nil and temp Sync()==nil, flush before sync, no temp write after the flush, temp opened O_TRUNC|O_CREATE")
 	c.Rule("R3 replay processes a line only when ReadString returned no error")
 	c.Rule("R4 leave and shutdown paths flush the writer and then sync the file")
+	// R5: a compaction can run inside any append and replaces the file by an image of the in-memory
+	// state; what was appended before survives it only if that state already contains it (and the
+	// compacted image serialises every replayed field): shared with C10.R2/R3.
+	c.Rule("R5 (shared with C10) compaction serialises every field replay restores, and each recorder updates its in-memory field before it appends the line (so a compaction triggered by that very append does not lose it)")
+	sub := an.NewCtx(c.P, "C10", c.Tier)
+	runC10(sub)
+	n5 := 0
+	for _, o := range sub.Obs {
+		if o.Rule == "R3" || (o.Rule == "R2" && strings.Contains(o.Key, "compact:covers:")) {
+			o.Key = "R5|C10:" + o.Key
+			o.Rule = "R5"
+			c.Obs = append(c.Obs, o)
+			n5++
+		}
+	}
+	c.Floor("R5", "state-before-append and compaction-coverage obligations", n5, 6)
 	fns := snapFuncs(c)
 	c.Floor("R1", "snapshotter functions", len(fns), 15)
 	nOpen, nRename := 0, 0
